@@ -31,6 +31,9 @@ type mcfg struct {
 	SegCount int    `json:"segcount"`
 	Streams  int    `json:"streams"` // 1 = video, 2 = video + audio rendition
 	Dir      bool   `json:"dir"`     // Directory storage
+	// NoParams: the H264 track is declared without out-of-band parameters and the frames carry an
+	// SPS but never a PPS: the init file cannot be generated, the first segment rotation fails
+	NoParams bool `json:"noparams,omitempty"`
 }
 
 func (c mcfg) coqVariant() string { return c.Variant }
@@ -76,6 +79,9 @@ type driver struct {
 func newDriver(cfg mcfg, workdir string) (*driver, error) {
 	d := &driver{cfg: cfg}
 	d.vt = &gohlslib.Track{Codec: &codecs.H264{SPS: testSPS, PPS: []byte{0x08}}, ClockRate: 90000}
+	if cfg.NoParams {
+		d.vt = &gohlslib.Track{Codec: &codecs.H264{}, ClockRate: 90000}
+	}
 	tracks := []*gohlslib.Track{d.vt}
 	if cfg.Streams == 2 {
 		d.at = &gohlslib.Track{Codec: &codecs.MPEG4Audio{Config: mpeg4audio.Config{
@@ -134,6 +140,9 @@ func (d *driver) writeFrame(idr bool) error {
 		au = [][]byte{{5}}
 		if j == 0 {
 			au = [][]byte{testSPS, {8}, {5}}
+		}
+		if d.cfg.NoParams {
+			au = [][]byte{testSPS, {5}} // SPS in-band, the PPS never arrives
 		}
 	}
 	return d.m.WriteH264(d.vt, t0.Add(time.Duration(j)*250*time.Millisecond), int64(j)*22500, au)
